@@ -15,6 +15,7 @@ import (
 	"time"
 
 	"github.com/influxdata/influxdb/models"
+	"github.com/influxdata/influxdb/pkg/escape"
 	"verifharness/fw"
 )
 
@@ -277,6 +278,77 @@ func canonOf(p models.Point, defaultTime time.Time) (string, error) {
 
 var precisions = []string{"n", "u", "ms", "s", "m", "h"}
 
+// genFieldKey: field keys may hold a backslash in front of any byte (they are escaped
+// without being unescaped first), but not at the very end.
+func genFieldKey(r *fw.Rand) string {
+	parts := []string{"a", "k", "\\", ",", " ", "=", "\"", "é", "x1", "\\\\", "\\,", "\\\"", "\\ ", "\\="}
+	var s string
+	for i := 0; i < 1+r.Intn(4); i++ {
+		s += parts[r.Intn(len(parts))]
+	}
+	s = strings.TrimRight(s, "\\")
+	if s == "" {
+		s = "k"
+	}
+	return s
+}
+
+func genNP(r *fw.Rand) string {
+	name := genIdent(r, false)
+	tagm := map[string]string{}
+	for i := r.Intn(4); i > 0; i-- {
+		tagm[genIdent(r, false)] = genIdent(r, false)
+	}
+	var tkeys []string
+	for k := range tagm {
+		tkeys = append(tkeys, k)
+	}
+	sort.Strings(tkeys)
+	var tg []string
+	for _, k := range tkeys {
+		tg = append(tg, hx([]byte(k))+":"+hx([]byte(tagm[k])))
+	}
+	tags := "-"
+	if len(tg) > 0 {
+		tags = strings.Join(tg, ",")
+	}
+	fm := map[string]string{}
+	for i := 1 + r.Intn(4); i > 0; i-- {
+		k := genFieldKey(r)
+		switch r.Intn(6) {
+		case 0:
+			vals := []float64{0, 1, -1, 1.5, -2.25, 1e10, 1e-10, 123456789.125, math.MaxFloat64, math.SmallestNonzeroFloat64, 3.0}
+			fm[k] = fmt.Sprintf("f:%016x", math.Float64bits(vals[r.Intn(len(vals))]))
+		case 1:
+			vals := []int64{0, 1, -1, math.MaxInt64, math.MinInt64, 42}
+			fm[k] = fmt.Sprintf("i:%d", vals[r.Intn(len(vals))])
+		case 2:
+			vals := []uint64{0, 1, 42, math.MaxInt64, 1 << 63, math.MaxUint64, 1<<63 + 5}
+			fm[k] = fmt.Sprintf("u:%d", vals[r.Intn(len(vals))])
+		case 3:
+			fm[k] = "b:" + []string{"T", "F"}[r.Intn(2)]
+		default:
+			parts := []string{"hello", " ", ",", "=", "\"", "\\", "\n", "é", "a b", "\\\\", "\"\""}
+			var v string
+			for j := r.Intn(4); j > 0; j-- {
+				v += parts[r.Intn(len(parts))]
+			}
+			fm[k] = "s:" + hx([]byte(v))
+		}
+	}
+	var fkeys []string
+	for k := range fm {
+		fkeys = append(fkeys, k)
+	}
+	sort.Strings(fkeys)
+	var fl []string
+	for _, k := range fkeys {
+		fl = append(fl, hx([]byte(k))+":"+fm[k])
+	}
+	t := []int64{0, 1, -1, 1600000000000000000, models.MinNanoTime, models.MaxNanoTime}[r.Intn(6)]
+	return fmt.Sprintf("np %s %s %s %d", hx([]byte(name)), tags, strings.Join(fl, ","), t)
+}
+
 func (Prop) Generate(r *fw.Rand, tier string) []fw.Case {
 	n := 600
 	if tier == "thorough" {
@@ -319,9 +391,10 @@ func (Prop) Generate(r *fw.Rand, tier string) []fw.Case {
 			if r.Chance(0.5) {
 				s = []byte(genIdent(r, true))
 			}
-			for _, k := range []string{"m", "t", "s"} {
+			for _, k := range []string{"m", "t", "s", "k"} {
 				ops = append(ops, "esc "+k+" "+hx(s), "unesc "+k+" "+hx(s))
 			}
+			ops = append(ops, genNP(r))
 			p := genPoint(r, "n")
 			var tg []string
 			for _, t := range p.tags {
@@ -403,9 +476,13 @@ func runOp(op string) (out string) {
 			return "ok " + hx(models.EscapeMeasurement(append([]byte(nil), b...)))
 		case "t":
 			return "ok " + hx(models.VerifEscapeTag(b))
+		case "k":
+			return "ok " + hx(escape.Bytes(append([]byte(nil), b...)))
 		default:
 			return "ok " + hx([]byte(models.EscapeStringField(string(b))))
 		}
+	case "np":
+		return npOp(f)
 	case "unesc":
 		b := unhx(f[2])
 		switch f[1] {
@@ -413,6 +490,8 @@ func runOp(op string) (out string) {
 			return "ok " + hx(models.VerifUnescapeMeasurement(b))
 		case "t":
 			return "ok " + hx(models.VerifUnescapeTag(b))
+		case "k":
+			return "ok " + hx(escape.AppendUnescaped(nil, b))
 		default:
 			return "ok " + hx([]byte(models.VerifUnescapeStringField(string(b))))
 		}
@@ -465,6 +544,123 @@ func runOp(op string) (out string) {
 		return "fuzz ok"
 	}
 	return "bad-op"
+}
+
+// npOp: a point built through the API (as the collectd/graphite/opentsdb/udp inputs and the
+// cluster's own forwarding do) must come back exactly as given from its text form and from its
+// binary form.
+func npOp(f []string) string {
+	name := string(unhx(f[1]))
+	tags := map[string]string{}
+	if f[2] != "-" {
+		for _, kv := range strings.Split(f[2], ",") {
+			p := strings.Split(kv, ":")
+			tags[string(unhx(p[0]))] = string(unhx(p[1]))
+		}
+	}
+	fields := models.Fields{}
+	hasUint := false
+	for _, kv := range strings.Split(f[3], ",") {
+		p := strings.Split(kv, ":")
+		k := string(unhx(p[0]))
+		switch p[1] {
+		case "f":
+			bits, _ := strconv.ParseUint(p[2], 16, 64)
+			fields[k] = math.Float64frombits(bits)
+		case "i":
+			v, _ := strconv.ParseInt(p[2], 10, 64)
+			fields[k] = v
+		case "u":
+			v, _ := strconv.ParseUint(p[2], 10, 64)
+			fields[k] = v
+			hasUint = true
+		case "b":
+			fields[k] = p[2] == "T"
+		default:
+			fields[k] = string(unhx(p[2]))
+		}
+	}
+	t, _ := strconv.ParseInt(f[4], 10, 64)
+	pt, err := models.NewPoint(name, models.NewTags(tags), fields, time.Unix(0, t))
+	if err != nil {
+		return "np err:" + strings.ReplaceAll(err.Error(), " ", "_")
+	}
+	render := func(p models.Point) string {
+		// tags in the order of their unescaped keys (models.NewTags): the text parser orders
+		// them by their escaped keys, which differs when a key starts with an escaped byte;
+		// that difference between the two input paths is recorded as an observation in
+		// DESIGN.md and is not part of this comparison
+		tagList := append(models.Tags(nil), p.Tags()...)
+		sort.Sort(tagList)
+		var tg []string
+		for _, x := range tagList {
+			tg = append(tg, hx(x.Key)+":"+hx(x.Value))
+		}
+		ts := "-"
+		if len(tg) > 0 {
+			ts = strings.Join(tg, ",")
+		}
+		fs, err := p.Fields()
+		if err != nil {
+			return "fields-err:" + strings.ReplaceAll(err.Error(), " ", "_")
+		}
+		var keys []string
+		for k := range fs {
+			keys = append(keys, k)
+		}
+		sort.Strings(keys)
+		var fl []string
+		for _, k := range keys {
+			switch v := fs[k].(type) {
+			case float64:
+				fl = append(fl, fmt.Sprintf("%s:f:%016x", hx([]byte(k)), math.Float64bits(v)))
+			case int64:
+				fl = append(fl, fmt.Sprintf("%s:i:%d", hx([]byte(k)), v))
+			case uint64:
+				fl = append(fl, fmt.Sprintf("%s:u:%d", hx([]byte(k)), v))
+			case bool:
+				b := "F"
+				if v {
+					b = "T"
+				}
+				fl = append(fl, hx([]byte(k))+":b:"+b)
+			case string:
+				fl = append(fl, hx([]byte(k))+":s:"+hx([]byte(v)))
+			}
+		}
+		return fmt.Sprintf("ok %s %s %s %d", hx(p.Name()), ts, strings.Join(fl, ","), p.UnixNano())
+	}
+	b, err := pt.MarshalBinary()
+	if err != nil {
+		return "np marshal-err"
+	}
+	q, err := models.NewPointFromBytes(b)
+	if err != nil {
+		return "np BINARY-REJECTED:" + strings.ReplaceAll(err.Error(), " ", "_")
+	}
+	viaBin := render(q)
+	// the text form cannot carry a field key with a backslash right in front of a separator
+	// (the line scanner reads any backslash as escaping the next byte), and the text parser of
+	// the default build has no unsigned suffix: those points are checked through the binary
+	// form only
+	textOK := !hasUint
+	for k := range fields {
+		for _, bad := range []string{"\\,", "\\ ", "\\=", "\\\""} {
+			if strings.Contains(k, bad) {
+				textOK = false
+			}
+		}
+	}
+	if textOK {
+		ps, err := models.ParsePointsWithPrecision([]byte(pt.String()), time.Unix(0, 0), "n")
+		if err != nil || len(ps) != 1 {
+			return fmt.Sprintf("np TEXT-REJECTED:%q", pt.String())
+		}
+		if viaText := render(ps[0]); viaText != viaBin {
+			return "np TEXT-DIFFERS text=" + viaText + " binary=" + viaBin
+		}
+	}
+	return viaBin
 }
 
 func exercise(p models.Point) {
@@ -582,6 +778,19 @@ func (Prop) Oracle(c fw.Case, out []string) fw.Verdict {
 		case f[0] == "line" && o != "line ok":
 			text := string(unhx(f[2]))
 			return fw.Verdict{OK: false, Why: fmt.Sprintf("request %q (precision %s): %.400s", text, f[1], o), Signature: "line " + strings.SplitN(strings.TrimPrefix(o, "line "), ":", 2)[0]}
+		case f[0] == "np" && o != "ok "+strings.Join(f[1:], " "):
+			// the round trip of a point built through the API is the identity
+			sig := "np " + strings.SplitN(strings.TrimPrefix(o, "np "), ":", 2)[0]
+			if strings.HasPrefix(o, "ok ") {
+				sig = "np comes back different through the binary form"
+			}
+			return fw.Verdict{OK: false, Why: fmt.Sprintf("%.400s came back as %.600s", c.Ops[i], o), Signature: sig}
+		case f[0] == "esc" && f[1] == "k" && i+1 < len(out) && strings.HasPrefix(o, "ok "):
+			// field keys: reading back what was written gives the key (escape.String then
+			// escape.AppendUnescaped), for every byte string
+			if back := hx(escape.AppendUnescaped(nil, unhx(strings.TrimPrefix(o, "ok ")))); back != f[2] {
+				return fw.Verdict{OK: false, Why: fmt.Sprintf("field key %q is written as %q and read back as %q", unhx(f[2]), unhx(strings.TrimPrefix(o, "ok ")), unhx(back)), Signature: "field key does not read back"}
+			}
 		}
 	}
 	return fw.Verdict{OK: true}
